@@ -185,6 +185,19 @@ Theorem limit_is_positive : forall sc, (0 < eff_max sc)%Z.
 Proof. exact eff_max_pos. Qed.
 Print Assumptions limit_is_positive.
 
+(* the limit that is enforced — on the raw body AND after decompression — is the configured one when it
+   is positive and 20 MiB when max_request_body_size is unset, zero or negative (the default config) *)
+Theorem effective_limit : forall sc,
+  ((s_max sc <= 0)%Z -> eff_max sc = (20 * 1024 * 1024)%Z) /\ ((0 < s_max sc)%Z -> eff_max sc = s_max sc).
+Proof. exact (fun sc => conj (eff_max_default sc) (eff_max_explicit sc)). Qed.
+Print Assumptions effective_limit.
+
+Theorem default_limit_holds : forall dec cdec sc w ce cl s,
+  (s_max sc <= 0)%Z -> server dec cdec sc w = Handled ce cl s ->
+  (Z.of_nat (List.length (fst s)) <= 20 * 1024 * 1024)%Z.
+Proof. exact default_limit_holds_l. Qed.
+Print Assumptions default_limit_holds.
+
 (* a body whose decoded size exceeds the limit: the handler's read fails with "too large" after
    exactly L bytes (the first L bytes of the decoded stream) *)
 Theorem limit_exact_decoded : forall dec cdec sc w c d e,
